@@ -193,7 +193,9 @@ def _trace_module_source_file(module: str) -> str | None:
 
 
 @functools.lru_cache(maxsize=100_000)
-def trace_origin(name: str, source: str, *, __all__: bool = False) -> _TraceResult | None:
+def trace_origin(
+    name: str, source: str, *, __all__: bool = False, _depth: int = 0
+) -> _TraceResult | None:
     """Trace the origin of a name in python source code.
 
     Args:
@@ -205,6 +207,9 @@ def trace_origin(name: str, source: str, *, __all__: bool = False) -> _TraceResu
     Returns:
         (source, ast, lineno) of the origin of name in source.
     """
+    if _depth > 20:  # Modules may star-import each other
+        return None
+
     root = core.parse(source)
     nodes = set(
         core.walk(
@@ -306,7 +311,7 @@ def trace_origin(name: str, source: str, *, __all__: bool = False) -> _TraceResu
                 with origin.open("r", encoding="utf-8") as stream:
                     module_source = stream.read()
 
-                if trace_origin(name, module_source, __all__=True):
+                if trace_origin(name, module_source, __all__=True, _depth=_depth + 1):
                     return _TraceResult(core.get_code(node, source), node.lineno, node)
 
         if isinstance(node, (ast.FunctionDef, ast.AsyncFunctionDef, ast.ClassDef)):
